@@ -745,13 +745,69 @@ fn procedure_valued_family(rng: &mut Rng, tag: usize) -> Vec<String> {
     }
 }
 
+/// a call that comes back through a continuation instead of a return - an escape out of a callee
+/// that has variables of its own, or a re-entry from a later form or from inside another
+/// activation - resumes the capturing activation with its own bindings: reads, assignments seen
+/// by closures created before the capture, and closures created after it
+fn nonlocal_return_family(rng: &mut Rng, tag: usize) -> Vec<String> {
+    let t = tag;
+    let mut forms = vec![];
+    let reentry = rng.chance(1, 2);
+    // what the receiver of the continuation does
+    let receiver = if reentry {
+        format!("(lambda (k) (set! nk{t} k) 'first)")
+    } else {
+        match rng.below(3) {
+            0 => format!("(lambda (k) (thrower{t} k 100 200) 'not-reached)"),
+            1 => format!("(lambda (k) (car (list (thrower{t} k 100 200))))"),
+            _ => format!("(lambda (k) (let ((x 'inner-x) (y 'inner-y)) (thrower{t} k x y)))"),
+        }
+    };
+    let capture = format!("(call/cc {})", receiver);
+    if reentry {
+        forms.push(format!("(define nk{t} #f)"));
+        forms.push(format!("(define nn{t} 0)"));
+    } else {
+        let thrower = match rng.below(3) {
+            0 => format!("(define (thrower{t} k x y) (k (list 'thrown x y)))"),
+            1 => format!("(define (thrower{t} k x y) (let ((z (list x y)) (x 'deeper)) ((lambda (y) (k (list 'thrown x y z))) 'deepest)))"),
+            _ => format!("(define (thrower{t} k . x) (define y (length x)) (for-each (lambda (x) (if (number? x) (k (list 'thrown x y)))) x) 'none)"),
+        };
+        forms.push(thrower);
+    }
+    // the capturing procedure: the capture sits in an operand, a binding init, an internal
+    // definition or a non-final body form; afterwards it uses its own variables
+    let outer = match rng.below(6) {
+        0 => format!("(define (cap{t} x y z) (list x {capture} y z))"),
+        1 => format!("(define (cap{t} x y z) (let ((r {capture})) (list r x y z)))"),
+        2 => format!("(define (cap{t} x y z) (define r {capture}) (set! y (list y 'seen)) (list r x y z))"),
+        3 => format!("(define (cap{t} x y z) (let ((get (lambda () (list x y z))) (put (lambda (v) (set! x v)))) {capture} (put (list 'put x)) (get)))"),
+        4 => format!("(define (cap{t} x y z) (let ((r {capture})) (let ((later (lambda () (list r x y z)))) (set! z (list z)) (later))))"),
+        _ => format!("(define (cap{t} x . y) (let* ((r {capture}) (w (cons r x))) (list w x y)))"),
+    };
+    forms.push(outer);
+    forms.push(format!("(cap{t} 1 2 3)"));
+    if reentry {
+        // from a later top-level form
+        forms.push(format!("(if (< nn{t} 1) (begin (set! nn{t} (+ nn{t} 1)) (nk{t} 'again)) 'stop)"));
+        // from inside an activation whose variables have the same names
+        forms.push(format!("(define (again{t} x y z) (if (< nn{t} 3) (begin (set! nn{t} (+ nn{t} 1)) (nk{t} (list 'from x y z))) (list 'stop x y z)))"));
+        forms.push(format!("(again{t} 'ax 'ay 'az)"));
+        forms.push(format!("((lambda (x) (let ((y 'ly)) (again{t} x y 'lz))) 'lx)"));
+    }
+    // once more from inside another activation
+    forms.push(format!("((lambda (x y) (let ((r (cap{t} 'p 'q 'r))) (list x r y))) 'ox 'oy)"));
+    forms
+}
+
 pub fn call_shape_session(rng: &mut Rng) -> Vec<Sx> {
     let n = 1 + rng.usize(3);
     let mut texts = vec![];
     for tag in 0..n {
-        match rng.below(4) {
+        match rng.below(6) {
             0 => texts.extend(internal_define_family(rng, tag)),
             1 => texts.extend(procedure_valued_family(rng, tag)),
+            2 | 3 => texts.extend(nonlocal_return_family(rng, tag)),
             _ => texts.extend(call_shape_family(rng, tag)),
         }
     }
